@@ -141,7 +141,7 @@ def main(argv=None):
 
     errors = [r for r in results if "error" in r] + [e for r in results if "errors" in r for e in r["errors"]]
     good = [r for r in results if "error" not in r]
-    violations = [r["violation"] for r in good if r.get("violation")]
+    violations = sorted((r["violation"] for r in good if r.get("violation")), key=lambda v: (v["case_index"], v["build"]))
     known = {}
     for r in good:
         for k in r.get("known_hits", []):
@@ -222,6 +222,7 @@ def main(argv=None):
     if violations:
         v = violations[0]
         print("violation: check=%s build=%s case_index=%d: %s" % (v["check"], v["build"], v["case_index"], v["message"]))
+        print("(%d of %d workers found a violation)" % (len(violations), len(good)))
         print("VIOLATION property=%s replay=%s" % (prop, replay_path))
         return 1
     if runs == 0:
